@@ -1,8 +1,9 @@
 """C02 — far-field propagation puts the Fraunhofer field on the right output samples.
 
 Tie: Gen/Window.lean (window block of propagate_dft, _mask_shape, _mask_shift), Gen/PropagateMeta.lean (alpha, dft2 call
-arguments, metadata, shape/prop_shape defaults, mask guard and out_extent branch), Gen/Extent.lean and Gen/Util.lean (boundary) are regenerated from the repository (translator);
-Model/Propagate.lean + Model/Fourier.lean (np.fix split, Wavefront.field) are hand models run at Float and compared here with the real `lentil.propagate_dft` (placement exactly, values to 1e-9 relative).
+arguments, metadata, shape/prop_shape defaults, mask guard and out_extent branch) and Gen/Extent.lean are regenerated from the repository (translator);
+Model/Propagate.lean + Model/Fourier.lean (np.fix split, Wavefront.field) and `boundary` of Model/Geometry.lean (lentil.util.boundary: hand definition, the C20 model,
+not translated; pinned) are hand models run at Float and compared here with the real `lentil.propagate_dft` (placement exactly, values to 1e-9 relative).
 Oracle: direct Fraunhofer double sum per output sample in np.longdouble on the real result, exact zeros outside the
 evaluated window, metadata."""
 import numpy as np
@@ -21,7 +22,8 @@ LEVEL_TEXT = ('Lean 4 theorems, for all input fields/offsets, samplings, tilt sh
               'wavefront and to the call as written: the input is a list of (field, real shift), every window is centred at trunc(shift) — no free split parameter is left. The mask box is computed by the model from the mask '
               'values with C20\'s boundary (mask_extent_is_support_bbox: it is the bounding box of the non-zero samples). Window arithmetic, '
               '_dft_alpha, its call site, shape·oversample, the metadata hand-over and every argument of the dft2 call and of the output Field are '
-              'regenerated from propagate.py/extent.py/field.py on every run (boundary from util.py). The model\'s split and mask box are compared with '
+              'regenerated from propagate.py/extent.py/field.py on every run; lentil.util.boundary itself is NOT regenerated: it is the hand definition `boundary` of Model/Geometry.lean '
+              '(the C20 model, trusted here, tied by the mask-box comparison and the pin on util.py:boundary). The model\'s split and mask box are compared with '
               'the ones read off the code\'s own array_extent/dft2 calls. The call as the caller writes it (propagateDftCall): shape=None is the wavefront shape, '
               'prop_shape=None is shape, an int is a square (shape_defaults), without a mask the call is propagateDft at the resolved shapes (call_no_mask, '
               'call_all_defaults), with a mask of the output shape it is propagateDft on the mask\'s bounding box and an all-zero mask is IndexError '
